@@ -95,7 +95,8 @@ def gen_py(rng, n_items=30, max_small=10, forms=True):
     # module-level constants (exempt), keep < 4 so the file is not a constants-definition module
     for _ in range(rng.randint(0, 3)):
         t, v = py_literal(rng, used, forms)
-        b.add("LIMIT_%d = %s" % (nx(), t), v, t, "const")
+        cname = rng.choice(["LIMIT_%d", "_PRIVATE_LIMIT_%d", "MAX2_RETRIES_%d", "__DUNDERISH_%d", "TIMEOUT_%d_SECONDS"]) % nx()
+        b.add("%s = %s" % (cname, t), v, t, "const")
     b.add("")
     b.add("")
     b.add("def func_main(a, items):")
@@ -203,7 +204,7 @@ def gen_ts(rng, n_items=25, js=False, forms=True):
     b.add("// Generated literals module")
     for _ in range(rng.randint(0, 3)):
         t, v = ts_literal(rng, used, forms)
-        b.add("const LIMIT_%d = %s;" % (nx(), t), v, t, "const")
+        b.add("const %s = %s;" % (rng.choice(["LIMIT_%d", "_PRIVATE_LIMIT_%d", "MAX2_RETRIES_%d"]) % nx(), t), v, t, "const")
     if not js and rng.random() < 0.7:
         b.add("enum Level_%d {" % nx())
         for name in ("Low", "Mid", "High"):
@@ -300,7 +301,7 @@ def gen_rs(rng, n_items=25, forms=True):
     for _ in range(rng.randint(0, 3)):
         t, v = rs_literal(rng, used, False)
         kind = rng.choice(["const", "static"])
-        b.add("%s LIMIT_%d: i64 = %s;" % (kind, nx(), t), v, t, "const")
+        b.add("%s %s: i64 = %s;" % (kind, rng.choice(["LIMIT_%d", "_PRIVATE_LIMIT_%d", "MAX2_RETRIES_%d"]) % nx(), t), v, t, "const")
     b.add("")
     b.add("fn func_main(a: i64, items: &[i64]) -> i64 {")
     ind = "    "
